@@ -273,24 +273,29 @@ Definition decimal_prefix (m : positive) (e : Z) : Z * bool * Z :=
 (** value c * 10^t as a double *)
 Definition f_of_scaled (c t : Z) : fl := f_of_decimal false c (- t).
 
-(** Does the decimal c * 10^t round to the double m * 2^e ? Exact integer
+(** Does the decimal C * 10^t19 round to the double m * 2^e ? Exact integer
     comparison with the midpoints to the neighbouring doubles (closed when the
     mantissa is even: round-half-even). Equivalent to reading the numeral back
-    with [f_of_decimal], without the long division. *)
-Definition in_interval (c t : Z) (m : positive) (e : Z) : bool :=
+    with [f_of_decimal], without the long division. The scale factors depend only on
+    (m, e, t19) and are computed once: (LS, lowR, highR, closed) with
+    C * 10^t19 in the rounding interval  iff  lowR <(=) C * LS <(=) highR. *)
+Definition interval_ctx (m : positive) (e t19 : Z) : Z * Z * Z * bool :=
   let boundary := Pos.eqb m 4503599627370496 && Z.ltb (-1074) e in
   let lowM := 4 * Zpos m - (if boundary then 1 else 2) in
   let highM := 4 * Zpos m + 2 in
   let b := e - 2 in
-  let L := c * (if Z.leb 0 t then 10 ^ t else 1) * (if Z.ltb b 0 then 2 ^ (- b) else 1) in
-  let sR := (if Z.leb 0 b then 2 ^ b else 1) * (if Z.ltb t 0 then 10 ^ (- t) else 1) in
-  if Z.even (Zpos m)
-  then Z.leb (lowM * sR) L && Z.leb L (highM * sR)
-  else Z.ltb (lowM * sR) L && Z.ltb L (highM * sR).
+  let LS := (if Z.leb 0 t19 then 10 ^ t19 else 1) * (if Z.ltb b 0 then 2 ^ (- b) else 1) in
+  let sR := (if Z.leb 0 b then 2 ^ b else 1) * (if Z.ltb t19 0 then 10 ^ (- t19) else 1) in
+  (LS, lowM * sR, highM * sR, Z.even (Zpos m)).
 
-(** Try [n] significant digits on the 19-digit prefix D19 of the exact decimal
-    (sticky: digits were dropped to get D19). Returns the chosen (c, t), value c*10^t. *)
-Definition try_digits (m : positive) (e : Z) (D19 : Z) (sticky : bool) (t19 nd19 n : Z) : option (Z * Z) :=
+Definition in_interval (ctx : Z * Z * Z * bool) (C : Z) : bool :=
+  let '(LS, lowR, highR, closed) := ctx in
+  let L := C * LS in
+  if closed then Z.leb lowR L && Z.leb L highR else Z.ltb lowR L && Z.ltb L highR.
+
+(** Try [n] significant digits on the decimal prefix D19 (sticky: digits were
+    dropped to get D19). Returns the chosen (c, t), value c*10^t. *)
+Definition try_digits (ctx : Z * Z * Z * bool) (D19 : Z) (sticky : bool) (t19 nd19 n : Z) : option (Z * Z) :=
   let sh := nd19 - n in                       (* digits of D19 dropped *)
   if Z.leb sh 0 then (if sticky then None else Some (D19, t19))
   else
@@ -298,8 +303,8 @@ Definition try_digits (m : positive) (e : Z) (D19 : Z) (sticky : bool) (t19 nd19
     let lo := D19 / p in
     let hi := lo + 1 in
     let t := sh + t19 in
-    let oklo := in_interval lo t m e in
-    let okhi := in_interval hi t m e in
+    let oklo := in_interval ctx (lo * p) in
+    let okhi := in_interval ctx (hi * p) in
     let r := D19 mod p in
     if oklo && okhi then
       match Z.compare (2 * r) p with
@@ -311,13 +316,13 @@ Definition try_digits (m : positive) (e : Z) (D19 : Z) (sticky : bool) (t19 nd19
     else if okhi then Some (hi, t)
     else None.
 
-Fixpoint shortest_fuel (fuel : nat) (m : positive) (e : Z) (D19 : Z) (sticky : bool) (t19 nd19 n : Z)
+Fixpoint shortest_fuel (fuel : nat) (ctx : Z * Z * Z * bool) (D19 : Z) (sticky : bool) (t19 nd19 n : Z)
          (dflt : Z * Z) : Z * Z :=
   match fuel with
   | O => dflt
-  | S f => match try_digits m e D19 sticky t19 nd19 n with
+  | S f => match try_digits ctx D19 sticky t19 nd19 n with
            | Some r => r
-           | None => shortest_fuel f m e D19 sticky t19 nd19 (n + 1) dflt
+           | None => shortest_fuel f ctx D19 sticky t19 nd19 (n + 1) dflt
            end
   end.
 
@@ -357,7 +362,7 @@ Definition num_to_str (x : fl) : str :=
   | S754_zero _ => lit "0"
   | S754_finite sg m e =>
       let '(D19, sticky, t19) := decimal_prefix m e in
-      let '(c, t) := shortest_fuel 24 m e D19 sticky t19 (ndigits D19) 1 (D19, t19) in
+      let '(c, t) := shortest_fuel 24 (interval_ctx m e t19) D19 sticky t19 (ndigits D19) 1 (D19, t19) in
       let '(c', t') := strip_zeros (Z.to_nat (- t)) c t in
       (if sg then [45%N] else []) ++ render_scaled c' t'
   end.
